@@ -253,6 +253,7 @@ func runLoad(seed uint64, scale int, out string, _ string) *summary {
 				// before its result is published (the clock sample afterDeleteCall takes lies in that
 				// window).  It must still join this load.
 				var lateGate *gate
+				var lateDone chan struct{}
 				lateTh, lateJoined := 0, false
 				kLate := fl.g.key
 				if _, present := c.GetEntryQuietly(kLate); !present && !fl.g.reload && registered[kLate] == fl && r.chance(45) {
@@ -260,7 +261,10 @@ func runLoad(seed uint64, scale int, out string, _ string) *summary {
 					lateTh = thread
 					th := lateTh
 					pendingThreads[th] = true
+					hookDone := make(chan struct{})
+					lateDone = hookDone
 					fn := func() {
+						defer close(hookDone)
 						go func() {
 							defer func() {
 								if rec := recover(); rec != nil {
@@ -277,9 +281,15 @@ func runLoad(seed uint64, scale int, out string, _ string) *summary {
 							}
 							results <- getResult{th, v, es}
 						}()
+						// a late reader that is slow to get going and arrives after a FAILED load has been
+						// cleaned up would legitimately start a load of its own: give it ample time then
+						patience := 3 * time.Millisecond
+						if oc.kind != "V" {
+							patience = 80 * time.Millisecond
+						}
 						select {
 						case lateGate = <-gl.started:
-						case <-time.After(3 * time.Millisecond):
+						case <-time.After(patience):
 							lateJoined = true
 						}
 					}
@@ -292,6 +302,10 @@ func runLoad(seed uint64, scale int, out string, _ string) *summary {
 						// the window was not reached (no clock sample): the read never started
 						delete(pendingThreads, lateTh)
 						lateTh = 0
+					} else {
+						<-lateDone // the callback ran (or is running): wait for its verdict
+					}
+					if lateTh == 0 {
 					} else if lateGate != nil {
 						sum.fail("C08", "overlap", "a second loader invocation started for a key whose load had returned but was not yet published",
 							fmt.Sprintf("%s key=%d running=%d new=%d", desc, kLate, fl.g.id, lateGate.id))
